@@ -707,8 +707,9 @@ class PendingAssign(PendingNode[Assign | AnnAssign]):
         else:
             assign_targets = self.node.targets
 
-        if len(assign_targets) > 1:
-            # evaluate the value once and bind the same object to every target
+        if len(assign_targets) > 1 or isinstance(assign_targets[0], (Attribute, Subscript)):
+            # evaluate the value once and bind the same object to every target;
+            # the value is also evaluated before the object/index of an attribute or subscript target
             tmp_value_name = Name(id=ol_name(OL_ASSIGN_TMP))
             return_list.append(NamedExpr(target=tmp_value_name, value=assign_value))
             assign_value = tmp_value_name
